@@ -10,7 +10,7 @@
 package libp2pquic
 
 //@ func (l *listener) wrapConnWithScope
-//@ prop C01
+//@ prop C01 C04
 //@ ensures result1 == nil ==> called(PubKeyFromCertChain, 0) && ret(PubKeyFromCertChain, 0, 1) == nil &&
 //@         arg(PubKeyFromCertChain, 0, 0) == ret(ConnectionState, 0, 0).TLS.PeerCertificates && arg(ConnectionState, 0, 0) == qconn
 //@ ensures result1 == nil ==> result0 != nil && fresh(result0) && result0.remotePubKey == ret(PubKeyFromCertChain, 0, 0) && result0.quicConn == qconn
@@ -18,6 +18,7 @@ package libp2pquic
 //@ ensures result1 == nil ==> called(SetPeer, 0) && arg(SetPeer, 0, 0) == connScope && arg(SetPeer, 0, 1) == result0.remotePeerID && ret(SetPeer, 0, 0) == nil
 //@ ensures result1 != nil ==> result0 == nil
 //@ ensures forall x *listener :: !fresh(x) ==> x.transport == old(x.transport)
+//@ ensures result1 == nil ==> result0 != nil && result0.scope == connScope
 //@ ensures forall x *transport :: !fresh(x) ==> x.gater == old(x.gater)
 //@ noframe
 
